@@ -460,12 +460,12 @@ theorem filterMap_replicate_none (n : Nat) :
 /-- the kernel output, whenever it returns, is the output of the push-based reference run -/
 theorem threshold_out (ts : Array Int) (ix : Array Bool) (st en : Array Int)
     (hix : ix.size = ts.size) (hn : 0 < ts.size) (out : Array Int × Array Int)
-    (h : jitthreshold ts ix st en = .ok out) :
+    (h : jitthresholdScan ts ix st en = .ok out) :
     ∃ k r', thrLead ts en 0 = .ok k ∧
       thrRefLoop ts ix en 1 ⟨k, if ix[0]'(by omega) then #[2 * ts[0]'(by omega)] else #[], #[]⟩ = .ok r' ∧
       out.1 = r'.S ∧
       out.2 = (if ix[ts.size - 1]'(by omega) then r'.E.push (2 * ts[ts.size - 1]'(by omega)) else r'.E) := by
-  unfold jitthreshold at h
+  unfold jitthresholdScan at h
   have r1 : rdB ix 0 = .ok (ix[0]'(by omega)) := by simp [rdB, show 0 < ix.size by omega]
   have r2 : rd ts 0 = .ok (ts[0]'(by omega)) := by simp [rd, hn]
   have r3 : rdB ix (ts.size - 1) = .ok (ix[ts.size - 1]'(by omega)) := by simp [rdB, show ts.size - 1 < ix.size by omega]
@@ -517,7 +517,7 @@ rejected sample inside.  (A kept sample alone in its support interval gets `star
 the constructor then drops is the open finding C07-threshold-lone-sample.) -/
 theorem threshold_cover (ts : Array Int) (ix : Array Bool) (st en : Array Int) (hs : StrictInc ts)
     (hix : ix.size = ts.size) (hn : 0 < ts.size) (out : Array Int × Array Int)
-    (h : jitthreshold ts ix st en = .ok out) :
+    (h : jitthresholdScan ts ix st en = .ok out) :
     out.1.size = out.2.size ∧
     ∀ i, (hi : i < ts.size) → (ix[i]'(by omega) = true ↔ ClosedV out.1 out.2 (2 * ts[i])) := by
   obtain ⟨k, r', hk, hr', e1, e2⟩ := threshold_out ts ix st en hix hn out h
@@ -744,7 +744,7 @@ interval extends beyond, or bridges the gap between, intervals of the original s
 theorem threshold_inside (ts : Array Int) (ix : Array Bool) (st en : Array Int) (hm : st.size = en.size)
     (hc : Canon st en hm) (hs : StrictInc ts) (hix : ix.size = ts.size) (hn : 0 < ts.size)
     (hin : ∀ i, (h : i < ts.size) → InIv st en hm ts[i]) (out : Array Int × Array Int)
-    (h : jitthreshold ts ix st en = .ok out) : ClosedIn st en hm out.1 out.2 := by
+    (h : jitthresholdScan ts ix st en = .ok out) : ClosedIn st en hm out.1 out.2 := by
   obtain ⟨k, r', hk, hr', e1, e2⟩ := threshold_out ts ix st en hix hn out h
   obtain ⟨_, hklt, hle, hskp⟩ := thrLead_spec ts en hn 0 k hk
   have hst0 : st[k]'(by omega) ≤ ts[0] :=
